@@ -282,15 +282,23 @@ func (rc *CRespCodec) MSet(resp *Msg) {
 }
 
 func (rc *CRespCodec) parseLine(buf *codec.Buffer) ([]byte, error) {
+	if buf.ReadSize() >= buf.TotalSize() {
+		// nothing of this argument has arrived yet
+		return nil, codec.EmptyLine
+	}
 	line, err := buf.ReadLine()
 	if err != nil {
-		return nil, err
+		if err == codec.ErrLFNotFound {
+			return nil, err
+		}
+		return nil, codec.ErrInvalidResp
 	}
 	switch line[0] {
 	case '$':
 		n, err := parseLen(line[1:])
 		if n < 0 || err != nil {
-			return nil, err
+			// a request argument is never a null bulk and its length is a plain decimal number
+			return nil, codec.ErrInvalidResp
 		}
 		b, err := buf.ReadN(n)
 		if err != nil {
